@@ -223,10 +223,17 @@ impl<'a, 'tcx> Cx<'a, 'tcx> {
                 o
             }
             Const::Val(val, ty) => values::read_const(tcx, val, ty, 0),
-            Const::Ty(t, c2) => J::kv(vec![
-                ("t", J::s("tyconst")),
-                ("dbg", J::Str(format!("{:?} {:?}", t, c2))),
-            ]),
+            Const::Ty(t, c2) => {
+                // type-level constant (e.g. the bounds of a range pattern): a scalar leaf is an ordinary value
+                if let Some(si) = c2.try_to_value().and_then(|v| v.try_to_leaf()) {
+                    values::read_const(tcx, rustc_middle::mir::ConstValue::Scalar(rustc_middle::mir::interpret::Scalar::Int(si)), t, 0)
+                } else {
+                    J::kv(vec![
+                        ("t", J::s("tyconst")),
+                        ("dbg", J::Str(format!("{:?} {:?}", t, c2))),
+                    ])
+                }
+            }
         }
     }
 
